@@ -124,4 +124,15 @@ impl MoveInfo {
     pub fn pop_halfmove_clock(&mut self) -> u8 {
         self.halfmove_clock_stack.pop().unwrap()
     }
+
+    #[cfg(feature = "verif")]
+    pub fn verif_fill_internals(&self, internals: &mut crate::verif::BoardInternals) {
+        internals.en_passant_target_stack =
+            self.en_passant_target_stack.iter().map(|b| b.0).collect();
+        internals.castle_rights_stack =
+            self.castle_rights_stack.iter().map(|&r| r as u64).collect();
+        internals.halfmove_clock_stack =
+            self.halfmove_clock_stack.iter().map(|&c| c as u64).collect();
+        internals.fullmove_clock = self.fullmove_clock as u64;
+    }
 }
